@@ -23,6 +23,7 @@ type Env struct {
 	st     *State
 	old    *State
 	pre    *State
+	prev   *State // loop-head state of the current iteration (back edges only)
 	fr     *Frame
 	pkg    *types.Package
 	pkgKey string // short package path for macro lookup
@@ -607,6 +608,9 @@ func (e *Env) index(xv, iv TV, x Expr) (TV, error) {
 	case *types.Slice:
 		h := e.vc.heap(e.st, elemHeapName(u.Elem()), arraySort(SInt, arraySort(SInt, e.vc.sortOf(u.Elem()))))
 		e.vc.noteHeapType(elemHeapName(u.Elem()), u.Elem(), "elem")
+		if !strings.HasPrefix(string(h.Sort), "(Array Int (Array") {
+			return TV{}, fmt.Errorf("internal: element heap %s has sort %s (term %s) in %s", elemHeapName(u.Elem()), h.Sort, h.S, exprString(x))
+		}
 		return TV{sel(sel(h, sBase(xv.T)), add(sOff(xv.T), iv.T)), u.Elem()}, nil
 	case *types.Array:
 		return TV{sel(xv.T, iv.T), u.Elem()}, nil
@@ -648,6 +652,16 @@ func (e *Env) call(x *ECall) (TV, error) {
 		n := *e
 		n.cst = e.pre
 		n.st = e.pre
+		return n.eval(x.Args[0])
+	case "prev":
+		// the state at the loop head of the current iteration (transition
+		// invariants, checked at back edges only)
+		if e.prev == nil {
+			return TV{}, fmt.Errorf("prev() only available in loop invariants")
+		}
+		n := *e
+		n.cst = e.prev
+		n.st = e.prev
 		return n.eval(x.Args[0])
 	case "len", "cap":
 		v, err := e.eval(x.Args[0])
